@@ -51,6 +51,7 @@ func init() {
 
 func runC05(c *an.Ctx) {
 	unwrapRule(c, "C05.truth")
+	c05noSecondLookup(c)
 	p := c.P
 	el := c.Fn("C05.if", "(*Runtime).executeList")
 	if el == nil {
